@@ -924,7 +924,7 @@ fn accepted_streams_and_connection_calls(ctx: &RunCtx, server: quinn::Endpoint, 
                         let id = qid(s.id());
                         let msg = tagged(id, 10 + i as u8, l);
                         if let Err(e) = s.write_all(&msg).await {
-                            return rec.borrow_mut().errors.push(format!("peer write: {e}"));
+                            return rec.borrow_mut().errors.push(format!("peer write: {e} ({e:?})"));
                         }
                         let _ = s.finish();
                         rec.borrow_mut().peer_sent.push((id, msg));
@@ -941,7 +941,7 @@ fn accepted_streams_and_connection_calls(ctx: &RunCtx, server: quinn::Endpoint, 
                         let id = qid(s.id());
                         let msg = tagged(id, 50 + i as u8, l);
                         if let Err(e) = s.write_all(&msg).await {
-                            return rec.borrow_mut().errors.push(format!("peer write: {e}"));
+                            return rec.borrow_mut().errors.push(format!("peer write: {e} ({e:?})"));
                         }
                         let _ = s.finish();
                         rec.borrow_mut().peer_sent.push((id, msg));
